@@ -711,6 +711,65 @@ def run_memory(ctx, P, cg):
                "accepted, before the upgrade was complete" % "; ".join(fmt_atom(a, p) for (a, p) in other[:2]))
     if nfree < 1:
         raise AnalysisBroken("websocket_close: call of free_compression not found")
+    # the reassembly buffer: avail_in != 0 is THE marker for 'next_in holds collected fragments' (reassemble(), private_decompress()
+    # and the consumers all go by it); whoever frees next_in directly does so under that test and no other (a frame flag, say,
+    # is still set while next_in has already been handed on and freed)
+    nfr = 0
+    for f in P.own_functions():
+        if f.base != "compression.c":
+            continue
+        # the function that allocates the buffer (stores a malloc/realloc result into next_in) manages it by construction
+        owner = any(i.op == "store" and P.term(f, i.a[1])[0] == "field" and P.term(f, i.a[1])[3] == "next_in" and
+                    Q.mentions(P.term(f, i.a[0]), lambda y: Q.is_call_to(y, ("malloc", "realloc"))) for i in f.all_insts())
+        if owner:
+            continue
+        for c in f.calls("free"):
+            t = P.term(f, c.a[0])
+            if t[0] == "load" and t[1][0] == "field" and t[1][3] == "next_in":
+                nfr += 1
+
+                def collecting(atom, pol):
+                    x = atom[1] if atom[0] == "truth" else atom[2]
+                    if not Q.mentions(x, lambda y: y[0] == "field" and y[3] == "avail_in"):
+                        return False
+                    if atom[0] == "truth":
+                        return bool(pol)
+                    return atom[3] == ("const", 0) and ((atom[1] == "ne" and pol) or (atom[1] == "eq" and not pol) or (atom[1] == "ugt" and pol))
+                def reassembled(atom, pol):   # behind a successful reassemble(): C19.3 R-GATE 'success implies buffer'
+                    return atom[0] == "cmp" and Q.is_call_to(atom[2], "reassemble") and atom[3] == ("const", 0) and \
+                        ((atom[1] == "slt" and not pol) or (atom[1] == "sge" and pol) or (atom[1] == "eq" and pol) or (atom[1] == "ne" and not pol))
+                ctx.ob("C19.4 R-PAIR", f, Q.ordinal_site(f, c, P) + ":collected-fragments-freed-under-their-marker",
+                       Q.must_pass(P, f, c.block, collecting) or Q.must_pass(P, f, c.block, reassembled),
+                       "%s() frees strm_decomp.next_in neither under the test avail_in != 0 nor behind a successful reassemble(): next_in is only valid while that marker says a "
+                       "message is being collected - under any other condition this frees a stale or foreign pointer" % f.srcname)
+    if nfr < 1:
+        raise AnalysisBroken("compression.c: no direct free of the reassembly buffer found (anchor: reassemble)")
+    # only data frames are compressed (RFC 7692 6.1: control frames are never compressed, RSV1 on them is a protocol error)
+    sfw = P.fn("websocket.c:send_frame")
+    tparam = [k for k, pr in enumerate(sfw.params) if pr["name"] == "type"]
+    ncomp = 0
+    for c in sfw.calls("websocket_compress"):
+        ncomp += 1
+        if not tparam:
+            raise AnalysisBroken("send_frame: parameter 'type' not found")
+        tt = ("param", tparam[0], "type")
+        gs = [(a, p) for (a, p) in Q.guards_of(P, sfw, c.block) if a[0] == "cmp" and a[2] == tt and a[3][0] == "const"]
+        slipped = []
+        for op in (0x8, 0x9, 0xA):
+            excluded = False
+            for (a, p) in gs:
+                cst = a[3][1]
+                holds = {"eq": op == cst, "ne": op != cst, "ult": op < cst, "ule": op <= cst, "ugt": op > cst, "uge": op >= cst,
+                         "slt": op < cst, "sle": op <= cst, "sgt": op > cst, "sge": op >= cst}.get(a[1])
+                if holds is not None and holds != bool(p):
+                    excluded = True
+            if not excluded:
+                slipped.append(hex(op))
+        ctx.ob("C19.7 R-GATE", sfw, Q.ordinal_site(sfw, c, P) + ":only-data-frames-are-compressed", not slipped,
+               "send_frame() lets frames of type %s through to websocket_compress(): a control frame (close, ping, pong) is sent with RSV1 "
+               "and its bytes go through the deflate context shared with the data messages" % ", ".join(slipped))
+    if ncomp < 1:
+        raise AnalysisBroken("send_frame: call of websocket_compress not found")
     ctx.floor("C19.7 R-PAIR", 2)
     ctx.floor("C19.3 R-BOUND", 3)
     ctx.floor("C19.3 R-CURSOR", 5)
